@@ -20,6 +20,7 @@ def refStep (r : Ref) : Op → Ref × List String
   | .sendStanza b => ({ r with accepted := r.accepted ++ [b] }, [b])
   | .sendRaw b    => ({ r with accepted := r.accepted ++ [b] }, [b])
   | .sendNonza b  => (r, [b])
+  | .sendFail b   => ({ r with accepted := r.accepted ++ [b] }, [])
   | .req b        => (r, [b])
   | .inbound      => (r, [])
   | .ack h =>
